@@ -282,6 +282,14 @@ def run_scenario(scenario: dict, horizon: float = 90.0) -> Run:
                 api.merge_edit(kind, 'ns1', obj, {'spec': a['patch']})
                 w.loop.run_until_fine(lambda: op.session.dead, w.now + 3)
                 api.on_request = prev_hook
+                target['n'] = -1                                   # disarm: no later PATCH may trigger the kill
+                if not op.session.dead and op.session.die_after_apply:
+                    # the n-th PATCH was issued right at the end of the wait: the server is applying it and the session dies
+                    # when the response would arrive - let that play out (a dead session without a restart would be a zombie
+                    # operator, an artefact of the harness, not a behaviour of kopf)
+                    w.loop.run_until_fine(lambda: op.session.dead, w.now + 2)
+                    if not op.session.dead:
+                        op.session.die_after_apply = False
                 if op.session.dead:
                     op.kill()
                     run.exclusions.add('kill')
